@@ -4,6 +4,7 @@ go 1.23
 
 require (
 	github.com/EdgeCast/vflow v0.0.0
+	gopkg.in/yaml.v2 v2.3.0
 	pgregory.net/rapid v1.3.0
 )
 
@@ -32,7 +33,6 @@ require (
 	gopkg.in/jcmturner/dnsutils.v1 v1.0.1 // indirect
 	gopkg.in/jcmturner/gokrb5.v7 v7.5.0 // indirect
 	gopkg.in/jcmturner/rpc.v1 v1.1.0 // indirect
-	gopkg.in/yaml.v2 v2.3.0 // indirect
 )
 
 replace github.com/EdgeCast/vflow => /repo
